@@ -5,6 +5,7 @@ Theorems are about `MxlVerif/Model/C16.lean` (linear mapper) and `MxlVerif/Model
 examples live here.
 -/
 import MxlVerif.Lemmas.C16Int
+import MxlVerif.Lemmas.C05Raw
 import MxlVerif.Generated.C16Facts
 namespace Mxl.C16
 open Mxl.C05
@@ -337,6 +338,23 @@ example :
         = .ok [.pos "A" 2, .pos "A" 0, .pos "A" 1] ∧
     mapLabelmapToSubstratesI [.pos "A" 0, .pos "A" 1, .pos "A" 2] [-4, 0, 1]
         = .error .indexError := ⟨rfl, rfl⟩
+
+/-- **coefficients that are not Python `int`s** (what the driver runs, `linearBuildP`): the linear
+    mapper's `_unpack_stoichiometries` raises `NotImplementedError` for a `Derived` coefficient (and
+    nothing else); a `float` goes through `int()`, so an integer-valued float is read as that integer
+    (`{"A": -1.0, "B": 2.0}` as `{"A": -1, "B": 2}`; `int()` truncates towards zero: 5/2 ↦ 2,
+    −5/2 ↦ −2, 1/2 ↦ 0); with no raw coefficients listed the entry point is `linearBuildI` -/
+theorem C16_noninteger_coefficients :
+    (∀ st : List (Name × Coef), (∃ kc ∈ st, kc.2 = .derived) →
+      unpackLinRaw st = .error .notImplementedError) ∧
+    (∀ (st : List (Name × Coef)) e, unpackLinRaw st = .error e → e = .notImplementedError) ∧
+    (∀ l : List ((Name × Int) × Bool),
+      unpackLinRaw (l.map fun x => asRaw x.1 x.2) = .ok (unpackLin (l.map (·.1)))) ∧
+    (∀ v : Int, pyTrunc (v : Rat) = v) ∧
+    (pyTrunc (5/2) = 2 ∧ pyTrunc (-5/2) = -2 ∧ pyTrunc (1/2) = 0) ∧
+    (∀ baseRxns lv maps il, linearBuildP baseRxns lv maps [] il = linearBuildI baseRxns lv maps il) :=
+  ⟨unpackLinRaw_derived, fun st e h => unpackLinRaw_error h, unpackLinRaw_integral, pyTrunc_int,
+   by decide +kernel, linearBuildP_nil⟩
 
 /-- the facts regenerated from the current `linear_label_map.py` by `translate/c16.py` are the ones
     the model is written for: every mirrored function has its modelled statement shape (no decorator,
